@@ -84,16 +84,10 @@ func pickInjectedErr() error {
 	return fakeTimeoutErr{}
 }
 
-// callNextReader runs c.NextReader; natively a Conn without a session panics inside
-// the dependency when the code under test closes the session: that is reported as closed=true.
+// callNextReader runs c.NextReader and reports whether the session was told to close
+// (known only under the symbolic executor, where Session.CloseWithError is a recording
+// model; natively the Conn carries a stub session whose close is a silent no-op).
 func callNextReader(c *Conn) (mt int, r io.Reader, err error, closed bool) {
-	if !verif.Symbolic() {
-		defer func() {
-			if p := recover(); p != nil {
-				closed = true
-			}
-		}()
-	}
 	before := zzmodels.SessionCloseCalls
 	mt, r, err = c.NextReader()
 	closed = zzmodels.SessionCloseCalls > before
@@ -134,7 +128,7 @@ func c15Script(L, K, pattern int, inject, frag bool, nchunk int) {
 	}
 	lim := verif.Int64()
 	st := &fakeStream{rd: rd, failAt: -1}
-	c := NewConn(nil, st, true, 16, 0, nil, nil, nil)
+	c := NewConn(zzmodels.StubSession(), st, true, 16, 0, nil, nil, nil)
 	c.SetReadLimit(lim)
 
 	off := 0 // reference: offset of the next frame header
@@ -152,9 +146,6 @@ func c15Script(L, K, pattern int, inject, frag bool, nchunk int) {
 		switch op {
 		case 0: // NextReader
 			mt, r, err, closed := callNextReader(c)
-			if closed && !verif.Symbolic() {
-				return
-			}
 			if firstErr != nil {
 				verif.Assert(err == firstErr, "sticky error from NextReader")
 				verif.Assert(r == nil, "no reader after failure")
@@ -170,10 +161,10 @@ func c15Script(L, K, pattern int, inject, frag bool, nchunk int) {
 				verif.Assert(r == nil, "no reader together with an error")
 				if err == ErrReadLimit {
 					verif.Assert(h.ok && (h.ulen >= 1<<63 || (lim > 0 && int64(h.ulen) > lim)), "limit error only for an oversized or negative declared length")
-					if h.ulen < 1<<63 {
+					if h.ulen < 1<<63 && verif.Symbolic() {
 						verif.Assert(closed, "session closed on limit violation")
 					}
-				} else {
+				} else if verif.Symbolic() {
 					verif.Assert(!closed, "session closed only for limit violations")
 				}
 				continue
@@ -182,7 +173,9 @@ func c15Script(L, K, pattern int, inject, frag bool, nchunk int) {
 			verif.Assert(mt == h.kind, "message kind")
 			verif.Assert(h.ulen < 1<<63, "declared length >= 2^63 rejected")
 			verif.Assert(lim <= 0 || int64(h.ulen) <= lim, "read limit enforced before delivery")
-			verif.Assert(!closed, "no close without violation")
+			if verif.Symbolic() {
+				verif.Assert(!closed, "no close without violation")
+			}
 			hdr, cur = h, r
 		case 1: // partial read on the current reader
 			if cur == nil {
